@@ -147,6 +147,40 @@ theorem external_wait_enabled_iff (s : State) (hpc : s.rt = .xwait) :
   simp only [hpc]
   split <;> simp_all
 
+/-- THE NOTIFIER IS ARMED WHEN THE RUNTIME PARKS. The notifier's multishot poll has three states (`Arm`): `needPush`
+(`NEED_PUSH_NOTIFIER`: never queued, or the kernel has terminated the multishot poll — final completion without `MORE`,
+reaped in `Driver::poll` (`RtEv.noMore`) or on the overflow path of `push_raw` (`RtEv.pushNoMore`), whatever its result),
+`queued` (re-arm pending in the submission queue), `live`. In every reachable state in which the io_uring runtime thread
+is at its kernel wait, or (external loop, repaired `flush`) at the wait on the descriptor, the poll is `live`; one and
+two steps earlier the re-arm is pending. So an eventfd write after the park produces a completion. -/
+theorem parked_notifier_armed {cfg : Cfg} {s : State} (hg : Good cfg) (h : Reachable cfg s) (hd : s.cfg.drv = .iour) :
+    ((s.rt = .wait ∨ s.rt = .xwait ∨ s.rt = .xreset) → s.arm = .live) ∧
+    ((s.rt = .submit ∨ s.rt = .xsubmit) → s.arm ≠ .needPush) := by
+  have hi := inv_of_reachable hg h
+  refine ⟨?_, ?_⟩
+  · rintro (h1 | h1 | h1)
+    · exact hi.armW hd h1
+    · exact hi.armXW hd (Or.inl h1)
+    · exact hi.armXW hd (Or.inr h1)
+  · rintro (h1 | h1)
+    · exact hi.armS hd h1
+    · exact hi.armXS hd h1
+
+/-- and therefore: a write to the eventfd while the runtime is parked posts a completion (and signals the registered
+eventfd), i.e. the wait returns -/
+theorem write_while_parked_signals {cfg : Cfg} {s : State} (hg : Good cfg) (h : Reachable cfg s) (hd : s.cfg.drv = .iour)
+    (hp : s.rt = .wait ∨ s.rt = .xwait) : (kWrite s).cq = true ∧ fdReadable (kWrite s) = true := by
+  have ha : s.arm = .live := (parked_notifier_armed hg h hd).1 (by rcases hp with h1 | h1 <;> simp [h1])
+  simp [kWrite, posts, fdReadable, hd, ha]
+
+/-- the kernel terminating the multishot poll (a NOTIFY completion without MORE) always leaves `NEED_PUSH_NOTIFIER`,
+on both paths that reap it -/
+theorem terminated_poll_needs_push (s s' : State) :
+    (rtStep s .noMore = some s' → s'.arm = .needPush) ∧ (rtStep s .pushNoMore = some s' → s'.arm = .needPush) := by
+  refine ⟨?_, ?_⟩ <;> intro h <;> unfold rtStep at h <;> (repeat' split at h) <;>
+    (try simp only [Option.some.injEq, reduceCtorEq] at h) <;> (try subst h) <;>
+    first | rfl | contradiction | (simp_all; done) | cases h
+
 /-- a waker thread between `fetch_or` and `write` is never blocked -/
 theorem signaller_not_blocked {s : State} {w : Nat} (hw : w < s.cfg.nw) (h : inflightP (s.wk w) = true) :
     (step s (.w w)).isSome = true := by
